@@ -1,6 +1,7 @@
 """C09 — every descriptor received is handed over exactly once or closed; none leak."""
 from .srv import SrvFamily
 from .fe import FeFamily
+from .c18_extra import ProxyPeerMut, BeSrvMalformed   # C18 machinery: descriptors on the backend->frontend channel
 
 PROPS_MODULES = ["C09", "C09Dispatch"]
 RULE = ("family `srv` (malformed + well-formed modes): request histories with 0..40 fresh memfds attached at arbitrary positions (on "
@@ -24,4 +25,5 @@ class FdFe(FeFamily):
 
 
 FAMILIES = [FdSrv(modes=("bodyfds", "malformed", "wf"), quick=(800, 0, 3500), thorough=(10000, 0, 60000)),
-            FdFe(modes=("srv", "mut"), quick=(1500, 0, 2500), thorough=(20000, 0, 40000))]
+            FdFe(modes=("srv", "mut"), quick=(1500, 0, 2500), thorough=(20000, 0, 40000)),
+            BeSrvMalformed(), ProxyPeerMut()]
